@@ -30,6 +30,7 @@ are checked.
 from __future__ import annotations
 
 import math
+import os
 
 from hypothesis import strategies as st
 
@@ -456,7 +457,7 @@ def _check_case(case) -> Verdict:
     return v
 
 
-WATCHDOG_S = 240  # per-case wall-clock guard: a solver that does not return is reported as a discard, never a violation
+WATCHDOG_S = int(os.environ.get("VERIF_WATCHDOG_S", "120"))  # per-case wall-clock guard: a solver that does not return is reported as a discard, never a violation
 
 
 class _CaseTimeout(Exception):
@@ -482,6 +483,14 @@ def _with_watchdog(fun, case):
         v = Verdict()
         v.label("watchdog-timeout")
         v.info["watchdog_s"] = WATCHDOG_S
+        dump = os.environ.get("VERIF_WATCHDOG_DUMP")  # debugging aid: keep the case that did not return
+        if dump:
+            import json
+
+            from vlib.core import case_hash, jsonable
+            os.makedirs(dump, exist_ok=True)
+            with open(os.path.join(dump, f"{PROPERTY_ID}_{case_hash(case)}.json"), "w") as fh:
+                json.dump(jsonable(case), fh, indent=1, sort_keys=True)
         return v.discarded("watchdog-timeout")
     finally:
         signal.alarm(0)
